@@ -134,7 +134,20 @@ macro_rules! plain_obj {
     };
 }
 
+/// Accepted headers may carry huge counts next to a zero dimension (e.g. rows = 2^60, size = 0): the
+/// byte invariant holds, but a probe that walks every index would never finish.
+fn small(dims: &[usize]) -> bool {
+    let mut p: u128 = 1;
+    for d in dims {
+        p = p.saturating_mul((*d).max(1) as u128);
+    }
+    p <= 1 << 22
+}
+
 fn probe_vec(v: &VecZnx<Vec<u8>>) -> u64 {
+    if !small(&[v.n(), v.cols(), v.size()]) {
+        return 0;
+    }
     let mut acc = 0u64;
     for j in 0..v.size() {
         for i in 0..v.cols() {
@@ -183,6 +196,9 @@ impl DynObj for W<ScalarZnx<Vec<u8>>> {
         Some((self.0.n, self.0.cols, 1, 1, self.0.data.len()))
     }
     fn probe(&self) -> Option<u64> {
+        if !small(&[self.0.n(), self.0.cols()]) {
+            return Some(0);
+        }
         let mut acc = 0u64;
         for i in 0..self.0.cols() {
             for x in self.0.at(i, 0) {
@@ -201,6 +217,9 @@ impl DynObj for W<MatZnx<Vec<u8>>> {
         self.0.read_from(r)
     }
     fn probe(&self) -> Option<u64> {
+        if !small(&[self.0.n(), self.0.rows(), self.0.cols_in(), self.0.cols_out(), self.0.size()]) {
+            return Some(0);
+        }
         let mut acc = 0u64;
         for r in 0..self.0.rows() {
             for c in 0..self.0.cols_in() {
